@@ -8,7 +8,7 @@ CONSTANTS
   Pool = {}
   PoolVal <- PoolNoneVal
   Maturity = 3
-  Flags = {"badRoot", "badSize", "badKernelRoot"}
+  Flags = {"badRoot", "badSize", "badKernelRoot", "badRproofRoot", "badKernelSize"}
   MaxDeliveries = 20
   HeadersFirst = TRUE
   SimProfile = "orphans"
